@@ -1240,7 +1240,10 @@ func (g *gen) groupLayout(n int, which string) {
 }
 
 func (g *gen) pct() float64 {
-	ps := []float64{-1, 0, math.Ldexp(1, -60), .01, .3, 1.0 / 3, .5, .9, .95, .99, 1 - math.Ldexp(1, -53), 1, 2}
+	// … and percentages whose product with the width no longer fits an int (seeded change C14i: the
+	// clamp to [0,1] removed; float64 -> int conversion of 2^63 and above is MinInt on amd64)
+	ps := []float64{-1, 0, math.Ldexp(1, -60), .01, .3, 1.0 / 3, .5, .9, .95, .99, 1 - math.Ldexp(1, -53), 1, 2,
+		1e18, 9e18, math.Ldexp(1, 62), math.MaxFloat64, -1e18, -math.MaxFloat64, 1000}
 	if g.chance(0.45) {
 		return ps[g.r.Intn(len(ps))]
 	}
